@@ -31,6 +31,11 @@ type State struct {
 	ghost  map[string]Term
 	defers []deferred
 	hmark  map[string]int
+	// protected: references to objects allocated by this function that provably never escape it
+	// (only used as method receivers / field bases): calls with unknown effects cannot touch them
+	protected []Term
+	// stableCells: heap cells the contract declares stable under calls with unknown effects (`stable p.f`)
+	stableCells []stableCell
 	// heapParams != nil: spec-function translation mode, heap reads become parameters h$<key>
 	heapParams map[string]Sort
 }
@@ -52,6 +57,8 @@ func (s *State) Clone() *State {
 	}
 	n.pc = append([]Term(nil), s.pc...)
 	n.defers = append([]deferred(nil), s.defers...)
+	n.protected = append([]Term(nil), s.protected...)
+	n.stableCells = s.stableCells
 	return n
 }
 
@@ -62,6 +69,11 @@ func (s *State) Assume(t Term) {
 	s.pc = append(s.pc, t)
 }
 
+type stableCell struct {
+	key string
+	ref Term
+}
+
 // Env is the evaluation environment of an expression.
 type Env struct {
 	info   *types.Info
@@ -69,6 +81,7 @@ type Env struct {
 	names  map[string]Term // ghost names (result, it1, ks1 ...) by identifier, for wrapper params
 	old    *State
 	oldB   map[types.Object]Term
+	gparams map[string]types.Object // wrapper parameters standing for ghost names (outText, it1, ...)
 	entry  *State
 	spec   bool
 	guards []Term
@@ -141,6 +154,8 @@ type FuncVerifier struct {
 	globalWrites   []string
 	yieldVar       *types.Var
 	nondet         []string // sources of nondeterminism met while executing (for `functional`)
+	localOnly      map[types.Object]bool
+	allocTerms     map[string]bool
 }
 
 func (fv *FuncVerifier) note(format string, args ...any) {
@@ -210,7 +225,13 @@ func sortOfType(w *World, t types.Type) Sort {
 			// external struct values are opaque references, except a few plain-data structs
 			if st, ok := x.Underlying().(*types.Struct); ok {
 				full := x.Obj().Pkg().Path() + "." + x.Obj().Name()
-				if full == "go/token.Position" {
+				allExported := st.NumFields() > 0
+				for i := 0; i < st.NumFields(); i++ {
+					if !st.Field(i).Exported() {
+						allExported = false
+					}
+				}
+				if full == "go/token.Position" || (allExported && (full == "mvdan.cc/gofumpt/format.Options")) {
 					return structSortOf(w, full, st)
 				}
 				return SRef
@@ -218,7 +239,7 @@ func sortOfType(w *World, t types.Type) Sort {
 		}
 		if st, ok := x.Underlying().(*types.Struct); ok {
 			name := x.Obj().Name()
-			if x.Obj().Pkg() != nil {
+			if x.Obj().Pkg() != nil && !strings.HasPrefix(name, "spec_") {
 				name = relPkg(x.Obj().Pkg().Path()) + "." + name
 			}
 			return structSortOf(w, name, st)
@@ -315,6 +336,11 @@ func (fv *FuncVerifier) typeInv(v Term, t types.Type) Term {
 		if v.Sort == SRef {
 			return T(SBool, "(=> (not (= %s null)) (= (dyn %s) %s))", v.S, v.S, fv.w.Tag(types.TypeString(t, nil)).S)
 		}
+	case *types.Interface:
+		if _, named := t.(*types.Named); named && v.Sort == SRef && x.NumMethods() > 0 {
+			name := fv.w.UFun("impl_"+sanitize(types.TypeString(t, nil)), []Sort{SInt}, SBool, "")
+			return T(SBool, "(=> (not (= %s null)) (%s (dyn %s)))", v.S, name, v.S)
+		}
 	}
 	return True
 }
@@ -356,6 +382,9 @@ func (fv *FuncVerifier) heapGet(st *State, key string, sort Sort) Term {
 		return t
 	}
 	ver := st.epoch
+	if strings.HasPrefix(key, "$ghost:") {
+		ver = 0 // ghost state is not touched by calls with unknown effects
+	}
 	if m, ok := st.hmark[key]; ok && m > ver {
 		ver = m
 	}
@@ -397,6 +426,7 @@ func (fv *FuncVerifier) writeField(st *State, ref Term, key string, fsort Sort, 
 // havocAll forgets every heap value (a call with unknown effects).
 func (fv *FuncVerifier) havocAll(st *State) {
 	fv.nfresh++
+	old := st.heap
 	st.epoch = fv.nfresh
 	keep := map[string]Term{}
 	for k, v := range st.heap {
@@ -405,6 +435,94 @@ func (fv *FuncVerifier) havocAll(st *State) {
 		}
 	}
 	st.heap = keep
+	for _, c := range st.stableCells {
+		if v, ok := old[c.key]; ok {
+			nh := fv.heapGet(st, c.key, v.Sort)
+			st.Assume(App(SBool, "=", App("", "select", nh, c.ref), App("", "select", v, c.ref)))
+		}
+	}
+	// objects that never escaped this function keep their state
+	if len(st.protected) > 0 {
+		var keys []string
+		for k := range old {
+			keys = append(keys, k)
+		}
+		sort.Strings(keys)
+		for _, k := range keys {
+			v := old[k]
+			if strings.HasPrefix(k, "$ghost:") || !strings.HasPrefix(string(v.Sort), "(Array Ref ") {
+				continue
+			}
+			nh := fv.heapGet(st, k, v.Sort)
+			for _, r := range st.protected {
+				st.Assume(App(SBool, "=", App("", "select", nh, r), App("", "select", v, r)))
+			}
+		}
+	}
+}
+
+// isLocalOnly: every use of the local variable v inside the function under verification is as the base of a
+// selector (method receiver or field access): the object it refers to cannot escape through v.
+func (fv *FuncVerifier) isLocalOnly(v types.Object) bool {
+	if fv.localOnly == nil {
+		fv.localOnly = map[types.Object]bool{}
+	}
+	if r, ok := fv.localOnly[v]; ok {
+		return r
+	}
+	ok := true
+	var stack []ast.Node
+	ast.Inspect(fv.fn.Decl, func(n ast.Node) bool {
+		if n == nil {
+			stack = stack[:len(stack)-1]
+			return true
+		}
+		if id, isId := n.(*ast.Ident); isId && fv.info.ObjectOf(id) == v {
+			parent := stack[len(stack)-1]
+			switch p := parent.(type) {
+			case *ast.SelectorExpr:
+				if p.X != id {
+					ok = false
+				}
+			case *ast.AssignStmt:
+				isLhs := false
+				for _, l := range p.Lhs {
+					if l == id {
+						isLhs = true
+					}
+				}
+				if !isLhs {
+					ok = false
+				}
+			case *ast.ValueSpec:
+				// declaration
+			case *ast.ReturnStmt:
+				// handed to the caller only when the function ends
+			default:
+				ok = false
+			}
+		}
+		stack = append(stack, n)
+		return true
+	})
+	fv.localOnly[v] = ok
+	return ok
+}
+
+// maybeProtect records that variable o now refers to a fresh, non-escaping object.
+func (fv *FuncVerifier) maybeProtect(st *State, o types.Object, v Term) {
+	if v.Sort != SRef || !fv.allocTerms[v.S] || st.heapParams != nil {
+		return
+	}
+	if _, isVar := o.(*types.Var); !isVar || !fv.isLocalOnly(o) {
+		return
+	}
+	for _, p := range st.protected {
+		if p.S == v.S {
+			return
+		}
+	}
+	st.protected = append(st.protected, v)
 }
 
 // ---- constants ----
@@ -464,6 +582,24 @@ func (fv *FuncVerifier) globalKey(o types.Object) string {
 		p = relPkg(o.Pkg().Path())
 	}
 	return "$global:" + p + "." + o.Name()
+}
+
+// readGlobal reads a package-level variable. A /repo variable that is initialised where it is declared with a
+// non-nil expression and never reassigned anywhere in /repo is a constant reference (assumption listed in evidence).
+func (fv *FuncVerifier) readGlobal(st *State, o types.Object) Term {
+	s := fv.sortOf(o.Type())
+	if s == SRef && o.Pkg() != nil && strings.HasPrefix(o.Pkg().Path(), repoModule) && fv.prog.StableGlobal(o) {
+		name := fv.w.UFun("glob_"+sanitize(relPkg(o.Pkg().Path())+"."+o.Name()), nil, SRef, "")
+		t := Term{name, SRef}
+		if st.heapParams == nil {
+			st.Assume(Not(App(SBool, "=", t, Null)))
+			al := fv.heapGet(st, "$ghost:alloc", "(Array Ref Bool)")
+			st.Assume(App(SBool, "select", al, t))
+		}
+		fv.externUsed["package-level variable "+relPkg(o.Pkg().Path())+"."+o.Name()+": initialised at declaration, never reassigned in /repo (syntactic check) => constant non-nil reference"] = true
+		return t
+	}
+	return fv.heapGet(st, fv.globalKey(o), s)
 }
 
 // coerce adapts nil literals to the expected sort.
@@ -534,7 +670,7 @@ func (fv *FuncVerifier) eval(st *State, env *Env, e ast.Expr) Term {
 		switch ov := o.(type) {
 		case *types.Var:
 			if ov.Parent() == ov.Pkg().Scope() { // package-level variable
-				return fv.heapGet(st, fv.globalKey(o), fv.sortOf(o.Type()))
+				return fv.readGlobal(st, o)
 			}
 			// variable not yet assigned (declared later / captured): give it an arbitrary value
 			t := fv.fresh(x.Name, fv.sortOf(o.Type()))
@@ -632,12 +768,29 @@ func (fv *FuncVerifier) eval(st *State, env *Env, e ast.Expr) Term {
 		}
 		tt := fv.typeOf(env, x.Type)
 		ok := fv.dynIs(v, tt)
-		fv.oblige(st, env, "S", "typeassert", ok, x.Lparen, "type assertion holds")
+		if fv.isReflectInterfaceCall(env, x.X) {
+			// reflect.New(T).Interface(): the reflection result has the prototype's pointer type (assumed; listed)
+			fv.externUsed["reflect: value.Interface().(T) on a reflect.New result succeeds (the new value has the prototype's type) — assumed"] = true
+			st.Assume(ok)
+		} else {
+			fv.oblige(st, env, "S", "typeassert", ok, x.Lparen, "type assertion holds")
+		}
 		return fv.unboxAs(v, tt)
 	case *ast.KeyValueExpr:
 		return fv.eval(st, env, x.Value)
 	}
 	return fv.unsupported(st, env, e, fmt.Sprintf("expression %T", e), fv.sortOf(fv.typeOf(env, e)))
+}
+
+func (fv *FuncVerifier) isReflectInterfaceCall(env *Env, e ast.Expr) bool {
+	call, ok := ast.Unparen(e).(*ast.CallExpr)
+	if !ok {
+		return false
+	}
+	if fn, ok := calleeOf(env.info, call).(*types.Func); ok {
+		return fn.FullName() == "(reflect.Value).Interface"
+	}
+	return false
 }
 
 // dynIs: the dynamic type of interface value v is (or implements) t.
@@ -847,7 +1000,7 @@ func (fv *FuncVerifier) evalSelector(st *State, env *Env, x *ast.SelectorExpr) T
 	}
 	switch ov := o.(type) {
 	case *types.Var:
-		return fv.heapGet(st, fv.globalKey(o), fv.sortOf(o.Type()))
+		return fv.readGlobal(st, o)
 	case *types.Func:
 		return Term{fv.w.UFun("fn_"+sanitize(ov.FullName()), nil, SRef, ""), SRef}
 	}
@@ -926,6 +1079,10 @@ func (fv *FuncVerifier) alloc(st *State, pt types.Type, hint string) Term {
 	al := fv.heapGet(st, "$ghost:alloc", "(Array Ref Bool)")
 	st.Assume(Not(App(SBool, "select", al, r)))
 	st.heap["$ghost:alloc"] = App(al.Sort, "store", al, r, True)
+	if fv.allocTerms == nil {
+		fv.allocTerms = map[string]bool{}
+	}
+	fv.allocTerms[r.S] = true
 	return r
 }
 
@@ -947,6 +1104,12 @@ func (fv *FuncVerifier) evalAddr(st *State, env *Env, x *ast.UnaryExpr) Term {
 		if isContentObject(t) {
 			return fv.eval(st, env, y)
 		}
+	}
+	if id, ok := ast.Unparen(x.X).(*ast.Ident); ok {
+		// &local passed to a callee: the callee may overwrite the variable (handled by the extern that receives it)
+		r := fv.fresh("addr_"+id.Name, SRef)
+		st.Assume(Not(App(SBool, "=", r, Null)))
+		return r
 	}
 	return fv.unsupported(st, env, x, "address-of", SRef)
 }
